@@ -57,7 +57,8 @@ func printNode(node interface{}, f *printer) error {
 	// 	s.walk(x)
 	case []ast.Decl:
 		if f.cfg.simplify {
-			ls.processDecls(x)
+			// A bare declaration list is printed like the body of a file.
+			ls.processDecls(x, true)
 		}
 		s.walkDeclList(x)
 	default:
